@@ -170,7 +170,10 @@ Section Zstd.
          (fun dec =>
             let expected := if meta =? 0 then lenN dec else meta in
             let l4 := lenN dec * 4 in
-            Ok (if (expected <=? l4) && (l4 <? expected + 8) then unpack_2bit dec expected else dec)).
+            (* is_packed = ref_metadata != 0 && len*4 >= expected && len*4 < expected + 8  (since 709bfda; before,
+               without the first conjunct, a stored-raw reference of 1 or 2 bases was "unpacked" to zeros) *)
+            Ok (if negb (meta =? 0) && (expected <=? l4) && (l4 <? expected + 8)
+                then unpack_2bit dec expected else dec)).
 
   (* get_reference_segment's decoder (decompressor.rs 486-506): no 2-bit unpacking *)
   Definition ref_via_query (p : N * list N) : outcome (list N) :=
